@@ -588,16 +588,25 @@ class OffsetLemmas(Contract):
                                                       offm(a.a, sz, Mx, hi + 1) == offm(a.a, sz, Mx, lo)))]
         # --- K: consumed = offset in m, under the sub-list precondition
         M = mem_of(m.a, m.n)
-        ctx = z3.And(AX, _ax(mem_axioms(m)), distinct(a), distinct_inj(a)[1], sublist_same_order(m, a, e), no_member_between(a, sz, M))
-        nxt = z3.Int("next")  # names the term offm(.., e[i] + 1) for the provers
-        out += [("consumed-is-offset:base", z3.Implies(z3.And(ctx, m.n >= 1, offm(a.a, sz, M, 0) == 0), offm(a.a, sz, M, e[0]) == off(m.a, sz, 0))),
-                ("consumed-is-offset:step", z3.Implies(z3.And(ctx, 0 <= i, i + 1 < m.n, offm(a.a, sz, M, e[i]) == off(m.a, sz, i), nxt == offm(a.a, sz, M, e[i] + 1),
-                                                              off(m.a, sz, i + 1) == off(m.a, sz, i + 1)),
+        ctx = z3.And(AX, _ax(mem_axioms(m)), distinct(a), distinct_inj(a)[1], sublist_same_order(m, a, e))
+
+        def L1(lo_, hi_):
+            """Instance of no-member-between (proved above by induction on hi) for one stretch."""
+            return z3.Implies(z3.And(0 <= lo_, lo_ <= hi_, z3.ForAll([j], z3.Implies(z3.And(lo_ <= j, j < hi_), z3.Not(M[a.a[j]])), patterns=[a.a[j]])),
+                              offm(a.a, sz, M, hi_) == offm(a.a, sz, M, lo_))
+
+        out += [("consumed-is-offset:base", z3.Implies(z3.And(ctx, L1(z3.IntVal(0), e[0]), m.n >= 1, offm(a.a, sz, M, 0) == 0, off(m.a, sz, 0) == 0),
+                                                       offm(a.a, sz, M, e[0]) == off(m.a, sz, 0))),
+                ("consumed-is-offset:step", z3.Implies(z3.And(ctx, L1(e[i] + 1, e[i + 1]), 0 <= i, i + 1 < m.n, offm(a.a, sz, M, e[i]) == off(m.a, sz, i),
+                                                              off(m.a, sz, i + 1) == off(m.a, sz, i) + sz[m.a[i]],
+                                                              offm(a.a, sz, M, e[i] + 1) == offm(a.a, sz, M, e[i]) + z3.If(M[a.a[e[i]]], sz[a.a[e[i]]], 0)),
                                                        offm(a.a, sz, M, e[i + 1]) == off(m.a, sz, i + 1))),
-                ("consumed-is-offset:end", z3.Implies(z3.And(ctx, m.n >= 1, offm(a.a, sz, M, e[m.n - 1]) == off(m.a, sz, m.n - 1), nxt == offm(a.a, sz, M, e[m.n - 1] + 1),
-                                                             off(m.a, sz, m.n - 1 + 1) == off(m.a, sz, m.n)),
+                ("consumed-is-offset:end", z3.Implies(z3.And(ctx, L1(e[m.n - 1] + 1, a.n), m.n >= 1, offm(a.a, sz, M, e[m.n - 1]) == off(m.a, sz, m.n - 1),
+                                                             off(m.a, sz, m.n) == off(m.a, sz, m.n - 1) + sz[m.a[m.n - 1]],
+                                                             offm(a.a, sz, M, e[m.n - 1] + 1) == offm(a.a, sz, M, e[m.n - 1]) + z3.If(M[a.a[e[m.n - 1]]], sz[a.a[e[m.n - 1]]], 0)),
                                                       offm(a.a, sz, M, a.n) == off(m.a, sz, m.n))),
-                ("consumed-is-offset:empty", z3.Implies(z3.And(ctx, m.n == 0, offm(a.a, sz, M, 0) == 0, off(m.a, sz, 0) == 0), offm(a.a, sz, M, a.n) == off(m.a, sz, m.n)))]
+                ("consumed-is-offset:empty", z3.Implies(z3.And(ctx, L1(z3.IntVal(0), a.n), a.n >= 0, m.n == 0, offm(a.a, sz, M, 0) == 0, off(m.a, sz, 0) == 0),
+                                                        offm(a.a, sz, M, a.n) == off(m.a, sz, m.n)))]
         # --- the inverse lemmas, over the postconditions of unmask_x_swap_order and mask_x_swap_order
         K = consumed_is_offset(m, a, sz, e)
         pre = z3.And(AX, _ax(mem_axioms(m)), distinct(a), distinct_inj(a)[1], sublist_same_order(m, a, e), K, sized(a, _FakeSizes(sz)))
@@ -795,7 +804,8 @@ class _FuncToWrap(Contract):
         f = _F(c.old.self)
         x = c.old.x_vect
         mask = getattr(c.new.self, P_ + "input_mask")
-        g = F1.dt.mk(ln(mask), z3.Const("g!ftw", z3.ArraySort(INT, z3.RealSort())))
+        if mask is None:
+            return [("input-mask-is-computed-and-cached", z3.BoolVal(False))]
         return [(f"mask:{l}", h) for l, h in _mask_facts(mask, f)] + [
             ("value", _arr_term(c.result) == adapter_f(_gathered_term(x, mask))),
             ("adapter-input-is-the-gather", gathered(F1.els(_gathered_term(x, mask)), x.obj.elems, f.m, f.a, f.sz)),
@@ -840,6 +850,8 @@ class _JacToWrap(Contract):
         f = _F(c.old.self)
         x = c.old.x_vect
         mask = getattr(c.new.self, P_ + "input_mask")
+        if mask is None:
+            return [("input-mask-is-computed-and-cached", z3.BoolVal(False))]
         J = _FakeArr("unused", 0)
         jt = adapter_j(_gathered_term(x, mask))
         J.obj.elems, J.obj.shape = F1.els(jt), (F1.dim(jt),)
@@ -855,3 +867,125 @@ class JacToWrapFirst(_JacToWrap):
 class JacToWrapCached(_JacToWrap):
     variant = "cached"
     self_schema = FFD + "#cached"
+
+
+# ---------------------------------------------------------------------------- ConsistencyConstraint: (y(x) - y_copy) / norm_factor
+from pyvc.npmodel import is_inf  # noqa: E402
+
+CCLS = "gemseo.core.mdo_functions.consistency_constraint.ConsistencyConstraint"
+CP_ = "_ConsistencyConstraint__"
+COUPLING_Y = TFun("c17_coupling_value", [F1], F1)
+coupling_y = z3.Function("c17_coupling_value", F1.sort(), F1.sort())
+schema(BF + "#idf", {"normalize_constraints": TBool}, bases=[BF])
+schema(FFD + "#asfun", {"_func": COUPLING_Y, "last_eval": F1, "force_real": TBool, "dim": TInt})
+schema(CCLS, {CP_ + "formulation": TObj(BF, schema_key=BF + "#idf"), CP_ + "output_couplings": TList(TStr),
+              CP_ + "coupl_func": TObj(FFD, schema_key=FFD + "#asfun"), CP_ + "norm_fact": F1})
+
+
+class _CC:
+    def __init__(self, s):
+        self.form = getattr(s, CP_ + "formulation")
+        oc = getattr(s, CP_ + "output_couplings")
+        self.oc = Seq(oc.n, oc.elems)
+        self.d = self.form.optimization_problem.design_space._variables
+        self.a = Seq(self.d.n, self.d.keys)
+        self.vs = self.form.variable_sizes
+        self.sz = self.vs.vals
+        self.nf = getattr(s, CP_ + "norm_fact")
+        self.normalize = self.form.normalize_constraints
+        self.total = off(self.oc.a, self.sz, self.oc.n)
+
+
+@register
+class ConsistencyValue(Contract):
+    """value = (y(x) - y_copy) / norm_factor (division only when normalize_constraints), y_copy = the coupling targets gathered from the
+    design vector in the order of the output couplings; hence zero exactly when y_copy = y(x)."""
+
+    targets = (CCLS + "._func_to_wrap",)
+    prop = ("C17",)
+    numpy = "precise"
+    np_c17 = True
+    frame_arrays = True
+    params = {"x_vect": F1}
+    returns = F1
+    modifies = ("self." + CP_ + "coupl_func",)
+
+    def requires(self, c):
+        k = _CC(c.old.self)
+        d, vs = k.d, k.vs
+        x = z3.Const("k!cc", STR)
+        j = z3.Int("j!cc")
+        v = z3.Const("v!cc", F1.sort())
+        return [("all-names-have-sizes", sized(k.a, vs)),
+                ("design-space-sizes-consistent", forall_pat([x], z3.Implies(d.member[x], z3.And(vs.member[x], vs.vals[x] == vsize(d.vals[x]))), d.member[x])),
+                ("sizes-positive", forall_pat([x], z3.Implies(d.member[x], vsize(d.vals[x]) >= 1), d.member[x])),
+                # IDF._update_design_space raises unless every coupling is a design variable
+                ("couplings-are-design-variables", z3.ForAll([j], z3.Implies(z3.And(0 <= j, j < k.oc.n), z3.And(d.member[k.oc.a[j]], d.pos[k.oc.a[j]] >= 0)), patterns=[k.oc.a[j]])),
+                ("vector-has-the-full-dimension", ln(c.old.x_vect) == off(k.a.a, k.sz, k.a.n)),
+                ("coupling-function-has-one-component-per-coupling-component", z3.ForAll([v], F1.dim(coupling_y(v)) == k.total, patterns=[coupling_y(v)])),
+                ("norm-factor-has-one-component-per-coupling-component", ln(k.nf) == k.total)]
+
+    def axioms(self, c):
+        k = _CC(c.old.self)
+        return off_axioms() + [distinct_inj(k.a), ("lemma:off-monotone(couplings)", off_mono(k.oc, k.sz)), ("lemma:off-monotone(all)", off_mono(k.a, k.sz))]
+
+    def finding_regions(self, c):
+        k = _CC(c.old.self)
+        i = z3.Int("i!fr17")
+        return {"degenerate-normalization-factor": z3.And(k.normalize, z3.Exists([i], z3.And(0 <= i, i < k.total, z3.Or(el(k.nf, i) == 0, is_inf(el(k.nf, i))))))}
+
+    def ensures(self, c):
+        k = _CC(c.old.self)
+        x, res = c.old.x_vect, c.result
+        xsw, y = c.locals["x_sw"], c.locals["coupl"]
+        i = z3.Int("i!cv")
+        rng = z3.And(0 <= i, i < k.total)
+        ri, yi, xi = at(res.obj.elems, i), at(y.obj.elems, i), at(xsw.obj.elems, i)
+        diff = yi - xi
+        return [("length", ln(res) == k.total),
+                ("copies-are-the-coupling-targets-of-the-design-vector", gathered(xsw.obj.elems, x.obj.elems, k.oc, k.a, k.sz)),
+                ("coupling-values", _arr_term(y) == coupling_y(_arr_term(x))),
+                ("value", fa_multi([i], z3.Implies(rng, ri == z3.If(k.normalize, diff / el(k.nf, i), diff)), ri)),
+                ("vanishes-iff-consistent", fa_multi([i], z3.Implies(rng, (ri == 0) == (yi == xi)), ri))]
+
+
+# ---------------------------------------------------------------------------- get_x_names_of_disc: origin of the sub-list precondition
+from pyvc.values import TSet, declare_ghost  # noqa: E402
+
+DISC = "gemseo.core.discipline.discipline.Discipline"
+declare_ghost("c17_emb", z3.ArraySort(INT, INT))
+declare_ghost("c17_emb_inv", z3.ArraySort(INT, INT))
+schema(DISC + ".io#c17", {"input_grammar": TSet(TStr)})  # a grammar is seen through `name in grammar` only: its set of names
+schema(DISC + "#c17", {"io": TObj(DISC + ".io", schema_key=DISC + ".io#c17")})
+
+
+@register
+class GetXNamesOfDisc(Contract):
+    """The design variables that are inputs of the discipline, in the order of the design space: a duplicate-free sub-list in the same
+    order (ghost c17_emb = positions within the design variables) - the precondition of the inverse lemmas at every in-tree call site."""
+
+    targets = (BF + ".get_x_names_of_disc",)
+    prop = ("C17",)
+    np_c17 = True
+    params = {"discipline": TObj(DISC, schema_key=DISC + "#c17")}
+    returns = TList(TStr)
+    modifies = ("ghost:c17_emb", "ghost:c17_emb_inv")
+
+    def ghost_final(self, c):
+        from pyvc.state import Undecided
+
+        o = c.result.obj
+        if not hasattr(o, "fsrc"):
+            raise Undecided("the result is no longer a filtered copy of the optimisation variable names")
+        return {"c17_emb": o.fsrc, "c17_emb_inv": o.fdst}
+
+    def ensures(self, c):
+        d = dsvars(c)
+        a, r = Seq(d.n, d.keys), Seq(c.result.n, c.result.elems)
+        e, inv = c.new_ghost("c17_emb", z3.ArraySort(INT, INT)), c.new_ghost("c17_emb_inv", z3.ArraySort(INT, INT))
+        g = c.old.discipline.io.input_grammar
+        j = z3.Int("j!xn")
+        return [("sub-list-of-the-design-variables-in-the-same-order", sublist_same_order(r, a, e)),
+                ("only-inputs", z3.ForAll([j], z3.Implies(z3.And(0 <= j, j < r.n), g.member[r.a[j]]), patterns=[r.a[j]])),
+                ("all-design-variables-that-are-inputs", z3.ForAll([j], z3.Implies(z3.And(0 <= j, j < a.n, g.member[a.a[j]]),
+                                                                                   z3.And(0 <= inv[j], inv[j] < r.n, r.a[inv[j]] == a.a[j])), patterns=[a.a[j]]))]
